@@ -22,17 +22,18 @@ ON = {"ODE": ["dyn_loss", "initial_condition", "observations"], "statio": ["dyn_
 PR = "jinns.parameters._params:"
 
 
-def batched(kind, K, B, grad_group=None, int_caller=False, caller_has_batch_shape=False, flat=False):
+def batched(kind, K, B, grad_group=None, int_caller=False, caller_has_batch_shape=False, flat=False, matrix_b=False):
     """flat: the per-sample table of a scalar parameter is given as a flat (B,) vector (one scalar per sample).
     caller_has_batch_shape: the caller's own value of the batched key 'a' already has the shape of a batch column
     (a placeholder, or the batch of an earlier evaluation): the batch still decides"""
     K = tuple(K)
     def build():
-        S = Scen(kind, B=B, a_shape=(B, 1) if caller_has_batch_shape else ())
+        S = Scen(kind, B=B, a_shape=(B, 1) if caller_has_batch_shape else (), b_shape=(2, 2) if matrix_b else ())
         terms = TERMS[kind]
         cshape = (B,) if flat else (B, 1)
         row = (lambda c, i: c[i]) if flat else (lambda c, i: c[i, 0])
-        extra = [Inp("acol", cshape), Inp("bcol", cshape)]
+        rowb = (lambda c, i: c[i, 1, 0] + 2 * c[i, 0, 1]) if matrix_b else row      # one 2 x 2 matrix per sample
+        extra = [Inp("acol", cshape), Inp("bcol", (B, 2, 2) if matrix_b else cshape)]
         names = S.names(mask_shape=(len(terms), 3), extra=extra)
         base_inputs = S.inputs(mask_shape=(len(terms), 3), extra=extra)
         if int_caller:      # the caller's own (overridden) value of a batched key is integer typed
@@ -44,7 +45,7 @@ def batched(kind, K, B, grad_group=None, int_caller=False, caller_has_batch_shap
             return loss.evaluate(params, batch)
         def term_specs(s):
             return S.term_specs(s, a_rows=[row(s["acol"], i) for i in range(B)] if "a" in K else None,
-                                b_rows=[row(s["bcol"], i) for i in range(B)] if "b" in K else None, on=ON[kind])
+                                b_rows=[rowb(s["bcol"], i) for i in range(B)] if "b" in K else None, on=ON[kind])
         if grad_group is None:
             def fn(*args):
                 a = dict(zip(names, args))
@@ -85,6 +86,8 @@ def batched(kind, K, B, grad_group=None, int_caller=False, caller_has_batch_shap
         what += ".caller_value_shaped_like_the_batch"
     if flat:
         what += ".flat_table"
+    if matrix_b:
+        what += ".matrix_valued_rows"
     return EqObligation(f"C12/{cls.split(':')[1]}/ensures.param_batch.{what}[{kind},K={'+'.join(K) or 'none'},B={B}]", build,
                         [cls, PR + "_update_eq_params_dict", PR + "_get_vmap_in_axes_params"])
 
@@ -199,6 +202,8 @@ def obligations(tier):
         obs.append(batched(kind, ("a", "b"), 2, int_caller=True))
         obs.append(batched(kind, ("a",), 2, caller_has_batch_shape=True))
         obs.append(batched(kind, ("a", "b"), 2, flat=True))           # one scalar per sample, given as a flat vector
+        obs.append(batched(kind, ("b",), 2, matrix_b=True))            # one matrix per sample
+        obs.append(batched(kind, ("a",), 2, matrix_b=True))            # an unbatched matrix next to a batched scalar
         obs.append(batched(kind, ("b",), 3 if tier == "thorough" else 2, flat=True))
         obs.append(observed_and_batched(kind, 2))
         for declared in ({"a": "h"}, {"b": "h", "a": None}, {}, {"a": "h", "b": "h"}):
@@ -209,6 +214,13 @@ def obligations(tier):
         obs.append(hetero(kind, {"a": "h", "b": "h"}, "evaluate", tmax=True))
         obs.append(hetero(kind, {"a": "h"}, "loss", tmax=True))
         obs.append(hetero(kind, {"a": "h", "b": "h"}, "evaluate", int_declared=True))
+    # metamodels: the per-sample parameters reach a hyper-network in the order of its `hyperparams` list, whatever order
+    # the dictionary has after vmap / jit rebuilt it (C10 contract of HYPERPINN.eval_nn, reported under C12)
+    from contracts import c10
+    for kind, d in (("ODE", 0), ("statio", 2)):
+        o = c10.hyper_ob(kind, d, 1, [(), (2,)], False, order=["b", "a"])
+        o.name = o.name.replace("C10/", "C12/network_input/")
+        obs.append(o)
     try:
         from contracts.c13 import c12_system_obligations
         obs += c12_system_obligations(tier)
